@@ -251,7 +251,12 @@ func ParseParameters(query string) []oid.Oid {
 		// positional parameter or an un-positional parameter.
 		// SELECT * FROM users WHERE id = ?
 		if match[1] == "" {
-			parameters = append(parameters, 0)
+			// NOTE: a statement could never be bound with more parameters than
+			// the wire protocol is able to count, further markers are ignored.
+			if len(parameters) < buffer.MaxPreparedStatementArgs {
+				parameters = append(parameters, 0)
+			}
+
 			continue
 		}
 
